@@ -1900,6 +1900,20 @@ func (r *Raft) installSnapshot(rpc RPC, req *InstallSnapshotRequest) {
 		r.setLeader(r.trans.DecodePeer(req.Leader), ServerID(req.ID))
 	}
 
+	// A snapshot that ends before our own latest snapshot carries nothing we
+	// do not already have: it is a delayed or duplicated request. Installing it
+	// would move the FSM, lastApplied and lastSnapshot backwards although the
+	// log has already been compacted against the newer snapshot, so the
+	// entries in between would be lost. Acknowledge it and change nothing.
+	if lastSnapIdx, _ := r.getLastSnapshot(); req.LastLogIndex < lastSnapIdx {
+		r.logger.Info("ignoring installSnapshot request older than our latest snapshot",
+			"request-last-index", req.LastLogIndex,
+			"last-snapshot-index", lastSnapIdx)
+		resp.Success = true
+		r.setLastContact()
+		return
+	}
+
 	// Create a new snapshot
 	var reqConfiguration Configuration
 	var reqConfigurationIndex uint64
